@@ -474,6 +474,21 @@ theorem decode_imp_prefix_incomplete {b : Bytes} {t : Cbor} {r : Bytes} (h : dec
     {k : Nat} (hk : k < b.length - r.length) : GV.Cbor.wfItem (b.take k) = .needMore :=
   GV.Cbor.wf_prefix (decode_imp_wfItem h) hk
 
+/-- contrapositive: what the byte-level machine does not accept (incomplete or malformed),
+    the tree decoder rejects -/
+theorem wfItem_reject_imp_decode_none {b : Bytes} (h : ∀ n, GV.Cbor.wfItem b ≠ .ok n) : decode b = none := by
+  cases hd : decode b with
+  | none => rfl
+  | some p =>
+    obtain ⟨t, r⟩ := p
+    exact absurd (decode_imp_wfItem hd) (h _)
+
+theorem needMore_imp_decode_none {b : Bytes} (h : GV.Cbor.wfItem b = .needMore) : decode b = none :=
+  wfItem_reject_imp_decode_none (fun n hn => by rw [h] at hn; cases hn)
+
+theorem bad_imp_decode_none {b : Bytes} (h : GV.Cbor.wfItem b = .bad) : decode b = none :=
+  wfItem_reject_imp_decode_none (fun n hn => by rw [h] at hn; cases hn)
+
 /-- non-vacuity: `[_ 1, h'aa']` followed by a stray byte -/
 example : GV.Cbor.wfItem [0x9f, 0x01, 0x41, 0xaa, 0xff, 0x00] = .ok 5 :=
   wfItem_enc (.arrI [.int false .w0 1, .str false .w0 [0xaa]]) (by decide) [0x00]
